@@ -276,6 +276,7 @@ func runC18(c *engine.Ctx) {
 		desc  string
 	}
 	var set []setKey
+	unparseable := false
 	for i := 0; i < nkeys; i++ {
 		b := c18Bases[p.Draw(len(c18Bases), "set:key")]
 		a := map[string]string{"RSA": "PS512", "EC": "ES512", "OKP": "EdDSA", "oct": "HS512"}[b.kty]
@@ -294,7 +295,32 @@ func runC18(c *engine.Ctx) {
 		o := jwkJSON(b, a, present, id)
 		// distinguish otherwise identical keys
 		o["x-bksim"] = fmt.Sprintf("k%d", i)
-		set = append(set, setKey{id: id, valid: acceptTable(b.kty, a, present) && !b.invalid, obj: o, desc: fmt.Sprintf("%s/%q id=%q", b.name, a, id)})
+		// the optional "use" parameter is not part of the accept rule
+		useDesc := ""
+		switch p.Draw(6, "set:use") {
+		case 3:
+			o["use"] = "sig"
+			useDesc = " use=sig"
+		case 4, 5:
+			o["use"] = "enc"
+			useDesc = " use=enc"
+		}
+		valid := acceptTable(b.kty, a, present) && !b.invalid
+		// an entry the JOSE library cannot parse at all makes the whole file unusable
+		if p.Draw(10, "set:unparseable") == 9 {
+			switch b.kty {
+			case "RSA":
+				delete(o, "n")
+			case "EC", "OKP":
+				delete(o, "x")
+			default:
+				o["kty"] = "XYZ"
+			}
+			unparseable = true
+			useDesc += " UNPARSEABLE"
+			valid = false
+		}
+		set = append(set, setKey{id: id, valid: valid, obj: o, desc: fmt.Sprintf("%s/%q id=%q%s", b.name, a, id, useDesc)})
 	}
 	req := append([]string{""}, alpha...)[p.Draw(4, "set:request")]
 	var objs []map[string]any
@@ -395,6 +421,16 @@ func runC18(c *engine.Ctx) {
 				allValid = false
 			}
 		}
+		if unparseable {
+			// confirm with the JOSE library itself that the file does not parse, then LoadKey must fail
+			if _, perr := jwk.Parse(content); perr != nil {
+				if lerr == nil {
+					c.Fail("C18.loadkey-select", "must fail: the key set holds an entry that does not parse", "LoadKey succeeded (returned id %q) on a key-set file one of whose entries does not parse: %s", lk.KeyID(), setDesc)
+				}
+				cands = nil
+				anyValid, allValid = false, false
+			}
+		}
 		switch {
 		case len(cands) == 0 || !anyValid:
 			if lerr == nil {
@@ -421,7 +457,7 @@ func runC18(c *engine.Ctx) {
 		}
 		// a second version of the file, same path and same length (ids rotated a->b->c->a), written right
 		// after the first load: LoadKey must answer from the file as it is now
-		if len(set) > 0 {
+		if len(set) > 0 && !unparseable {
 			rot := map[string]string{"a": "b", "b": "c", "c": "a", "": ""}
 			var objs2 []map[string]any
 			set2 := make([]setKey, len(set))
